@@ -92,10 +92,8 @@ fn add_types_prefix(ts_type: &str) -> String {
 
     // Handle arrays: CustomType[] -> types.CustomType[]
     if let Some(base_type) = ts_type.strip_suffix("[]") {
-        if matches!(base_type, "string" | "number" | "boolean" | "void") {
-            return ts_type.to_string();
-        }
-        return format!("types.{}[]", base_type);
+        // The element type is qualified like any other type (it may itself be an array or a built-in)
+        return format!("{}[]", add_types_prefix(base_type));
     }
 
     // Handle Record/Map - they contain types but the structure itself doesn't need prefix
